@@ -67,6 +67,7 @@ func newWorld() *world {
 	add("A2big", mk(0, 2, 100*gwei, w.big, 21000))
 	add("A3p100", mk(0, 3, 100*gwei, one, 21000))
 	add("A3big", mk(0, 3, 100*gwei, w.big, 21000))
+	add("A3bigp110", mk(0, 3, 110*gwei+55, w.big, 21000))  // a properly bumped replacement of A3p100 that costs far more
 	add("A3gas", mk(0, 3, 100*gwei, one, 100000000)) // gas above any block limit
 	add("B0p100", mk(1, 0, 100*gwei, one, 21000))
 	add("B1p100", mk(1, 1, 100*gwei, one, 21000))
